@@ -250,6 +250,18 @@ func (e *Explorer) Run() {
 	a := runOnce(sc, nil)
 	b := runOnce(sc, nil)
 	if a.r.ReplayErr != "" || strings.Join(a.x.Log, "\n") != strings.Join(b.x.Log, "\n") || fmt.Sprint(choicesOf(a.r)) != fmt.Sprint(choicesOf(b.r)) {
+		// The same schedule behaved differently twice: state leaks from one execution into the next
+		// (package-level state in the code under test). If either run violated the oracle that is a
+		// finding about the code, reported as such; otherwise it is a harness problem.
+		if len(a.x.Fails)+len(b.x.Fails) > 0 {
+			e.record(a, 0, 0)
+			e.record(b, 0, 0)
+			for _, v := range e.Viol {
+				v.Detail += " [note: the default schedule gave different results on its first and second execution in one process: state leaks between executions]"
+			}
+			e.Stats.Outcomes = len(e.outcomes)
+			return
+		}
 		e.HErr = append(e.HErr, fmt.Sprintf("scenario %s: default schedule is not deterministic (log %d vs %d lines)", sc.Name, len(a.x.Log), len(b.x.Log)))
 		return
 	}
